@@ -9,6 +9,9 @@ Streams (all from ctx.rng):
                     with distinct charges, efp lines) x every [\t ,]+ spelling on every separator-bearing line kind (xyz count line,
                     xyz+ chg/mult(+name) line, CHGMULT lines, atom lines, efp lines; trailing run where the grammar allows one)
                     -> identical from_string record and Molecule hash (kind oracle:layout_separators)
+  T  token sweep    one-atom molecules for every element of the shipped table x written-token shapes (real/ghost x label
+                    '' / '_word' / digits) through the stream-A round-trip oracle and the RW model lines (table-wide instance of
+                    Props/C07Label.lean `written_token_reconciles` on the implementation)
   M1 correspondence every text of A/B/C/S (plus keyword/efp spellings) through the Lean line-filter model, compared with
                     the implementation's outcome class and its `return_processed=True` dictionary
   E2E correspondence the same texts through Driver/C07b.lean (text layer + from_input_arrays mapping + from_arrays with the C06
@@ -32,7 +35,8 @@ from common import Ctx, Finding, Outcome, err_class
 
 PROPERTY = "C07"
 LEAN_TARGETS = ["QcelVerif.Props.C07", "QcelVerif.Lemmas.MolTextJoin", "QcelVerif.Props.C07Text", "QcelVerif.Driver.C07",
-                "QcelVerif.Model.TextToMol", "QcelVerif.Driver.C07b", "QcelVerif.Props.C07E2E", "QcelVerif.Props.C07Hash"]
+                "QcelVerif.Model.TextToMol", "QcelVerif.Driver.C07b", "QcelVerif.Props.C07E2E", "QcelVerif.Props.C07Hash",
+                "QcelVerif.Lemmas.C07Label", "QcelVerif.Props.C07Label", "QcelVerif.Props.C07Full"]
 DRIVER = "QcelVerif/Driver/C07.lean"
 THEOREMS = [
     ("QcelVerif.MolText.tokens_roundtrip", "splitting the join of non-empty separator-free tokens (any non-empty [\\t ,]+ runs between them) returns the tokens"),
@@ -87,6 +91,29 @@ THEOREMS = [
     ("QcelVerif.TextToMol.roundtrip_same_canon", "(b) for a record without connectivity: if every coordinate read back has the same 8-decimal float_prep image [bohr] as the stored one, the molecule read back has the same C11 canonical hash fields, whatever the text's unit/name/comment/frame flags"),
     ("QcelVerif.TextToMol.roundtrip_same_hash", "(b) hence the same hash (C11 hash_of_canon)"),
     ("QcelVerif.TextToMol.printed_same_prep", "PARTIAL (b): coordinates read back within 1e-10 bohr (>= 10 printed decimals) of stored ones that are not within 0.02e-8 of a rounding boundary have the same float_prep image (C11 round_stable); 8 and 9 decimals need the exact margin (oracle only)"),
+    # ---- the written nucleus token alone re-derives the atom (Props/C07Label.lean): hlab discharged
+    ("QcelVerif.TextToMol.matchNucleus_written", "(i) C06's BACKTRACKING model of the compiled NUCLEUS regex (greedy first, alternatives in source order) decodes the three token shapes the writers print - elem+label, '@'elem+label, 'Gh('elem+label')' - into exactly (ghost marker as written, no A, E = elem, user = label or absent when empty, no Z, no mass), for ALL 1-3 letter symbols and ALL grammar-conformant labels (SymOk/LblOk: the conformance predicates inside AtomOk/RecOk/XyzOk of every round-trip theorem); structural, no size bound"),
+    ("QcelVerif.TextToMol.parseLabel_nucPsi4", "parse_nucleus_label (C06 model) of the psi4 token of an atom = (symbol, real/ghost flag, user label), nothing else"),
+    ("QcelVerif.TextToMol.parseLabel_nucXyz", "the same for the xyz token elem / '@'elem: symbol and real/ghost flag, no user label"),
+    ("QcelVerif.TextToMol.written_token_decoders_agree", "M1's hand-written NUCLEUS recogniser (classifies the line) and C06's backtracking matcher (reads the token inside reconcile_nucleus) decode a written psi4 token to the same ghost flag, symbol and user label"),
+    ("QcelVerif.TextToMol.label_only_eq_symbol_clue", "(ii) ANY periodic table / rounding function / range table: if reconcile_nucleus(E=elem) - under any tolerance - answers o, then the written psi4 token alone as label (speclabel=True) is answered with o's (A, Z, E, mass), the token's real/ghost flag and the lower-cased user label"),
+    ("QcelVerif.TextToMol.shipped_symbols_ok", "shipped table [decide +kernel over the regenerated element rows]: every element symbol is 1-3 ASCII letters, so (i) covers the whole shipped periodic table"),
+    ("QcelVerif.TextToMol.written_token_reconciles", "(ii) shipped table, rd64: for every atom that is the default isotope of a shipped element (A = to_A(Z), mass = float(to_mass(Z))) with a grammar-conformant lower-case label, real or ghost, reconcile_nucleus(label=psi4 token, speclabel=True, from_string's settings) returns exactly the record's (A, Z, E, mass, real, label)"),
+    ("QcelVerif.TextToMol.written_xyz_token_reconciles", "the same for the xyz token (elem / '@'elem) and an atom without user label"),
+    ("QcelVerif.TextToMol.written_token_answer_is_default", "CONVERSE, any table: whatever reconcile_nucleus answers to a written token has A = to_A(Z) and mass = float(to_mass(Z)) - the token names no mass number and no mass (C06 reconcile_default)"),
+    ("QcelVerif.TextToMol.isotope_not_carried", "hence an atom whose mass is not its element's default mass is never the answer to its own written token: isotope substitution is not carried by xyz/xyz+/psi4 and 'format-carriability' (Carried) cannot be weakened"),
+    ("QcelVerif.TextToMol.writeMol_ignores_isotopes", "the writers print neither mass numbers nor masses nor atomic numbers: records differing only there have the same text in every format, unit and precision"),
+    ("QcelVerif.TextToMol.validated_labels_lower", "every user label of a record returned by from_arrays (C06 reconciler, shipped table, any rounding) is lower-case, so the lower-case clause of Carried is free for validated records"),
+    ("QcelVerif.TextToMol.hlab_of_carried", "hlab for psi4 text: for any number of carried atoms, the written tokens, each alone, are answered by the reconciler with the record's atoms in order"),
+    ("QcelVerif.TextToMol.hlab_xyz_of_carried", "hlab for xyz/xyz+ text (atoms without user labels)"),
+    # ---- Props/C07Full.lean: the end-to-end theorems without hlab / hcm, and the headline
+    ("QcelVerif.TextToMol.read_write_validated_psi4_multi", "(a) FULL, psi4 with several fragments: a validated record (fixed point of from_arrays; C06 reconciler over the shipped table under rd64) whose atoms are format-carried (default isotopes, conforming lower-case labels), written as psi4 text that carries its integers and read through the whole composed reader, comes back with the printed coordinates and the text's unit, every other carried field unchanged - no hlab, no hcm; remaining hypotheses: printed numbers convert to the record's integers / to g (float() parameter) and g passes the 0.1 screen in the text's unit"),
+    ("QcelVerif.TextToMol.read_write_validated_psi4_single", "(a) FULL, psi4 with one fragment (single charge/multiplicity line taken as the fragment's, totals completed by C05)"),
+    ("QcelVerif.TextToMol.read_write_validated_psi4", "(a) FULL, psi4, either shape the writer prints"),
+    ("QcelVerif.TextToMol.vfc_single_fragment_absent", "C05 on a single-fragment xyz+ text: validate_and_fill_chgmult with the totals given and the fragment's charge/multiplicity absent returns what it returns with everything given"),
+    ("QcelVerif.TextToMol.read_write_validated_xyzplus", "(a) FULL, xyz+: validated single-fragment record of format-carried atoms without user labels comes back with printed coordinates, unit, total charge/multiplicity, frame flags off - no hlab, no hcm"),
+    ("QcelVerif.TextToMol.text_roundtrip_same_hash", "HEADLINE: a validated molecule stored in Bohr without connectivity, of format-carried atoms, written as psi4 text in Bohr with >= 10 decimals (coordinates read back within 1e-10 of stored ones that are not within 0.02e-8 of an 8-decimal rounding boundary) and read back through the whole composed reader is a molecule record - the original with the printed coordinates, still in Bohr - with the SAME C11 hash; every hypothesis explicit (fixed point, RecOk, Carried, float()/int() of the printed numbers, closeness screen, precision, FlOk of the hash's rounding)"),
+    ("QcelVerif.TextToMol.deuterium_not_carried", "test [decide +kernel, whole pipeline on the shipped table]: a deuterium record and the plain 1H record are both fixed points of from_arrays, are written as the same text, and that text reads back as the 1H record - isotope information is genuinely not carried"),
 ]
 TRUSTED_BASE = [
     "Lean 4.33 kernel; axioms per theorem audited on every run (subset of propext, Classical.choice, Quot.sound)",
@@ -96,6 +123,8 @@ TRUSTED_BASE = [
     "float(token) is the parameter rd (driver: Nucleus.rd64, round-to-nearest-even binary64, the same function the C04b/C06 drivers use); to_string's unit conversion and '{:.{prec}f}' stay parameters of the writer (printed coordinates supplied)",
     "the closeness screen is evaluated exactly in the model and in floating point by numpy: texts with an atom pair within 1e-12 of the squared threshold are not compared (counted as E2E:hairline_not_compared)",
     "Molecule.from_data geometry is compared with the model's coordinates (x Angstrom->bohr factor) under the 8-decimal construction rounding and float_prep's zero band (C11's model), not bit-exactly; all other Molecule fields exactly",
+    "the label theorems (Props/C07Label.lean, C07Full.lean) are about C06's hand-written backtracking model of the NUCLEUS regex (Model/Nucleus.lean, tied to CPython's `re` by C06's P lines and by this check's R/RW lines) and about the C06 reconciler over the periodic table regenerated from /repo (`shipped_elements_default`, `shipped_symbols_ok`: decide +kernel on every run); `rd64` stands for float() (checked by C06's D lines)",
+    "in the hlab-free theorems the text-level record m (what to_string is given) is related to the validated record r by explicit hypotheses (same symbols/real flags/labels: Carried; printed integers convert to r's charges, multiplicities, separators) - that to_string builds m from r this way (Model/TextToMol.toTextRec) is tied by the RW lines, not proved from from_arrays' invariant",
     "harness/c07.py generators, layout rewriter and the Python oracle",
 ]
 ASSUMPTIONS = [
@@ -106,7 +135,8 @@ ASSUMPTIONS = [
     "texts without any atom: bare from_string returns {} (documented missing_enabled_return_qm='none') - reported under its own finding kind (known finding); the Molecule.from_data route must raise a documented error",
     "efp lines: the model covers the single-line `efp file x y z a b c` form; `efp file` + three point lines is declared out of model scope",
     "composed reader (readMol): additionally out of scope (answer `oos`, counted) are non-integer charges, charges/multiplicities beyond 1e9 (from_arrays/chgmult models are integer models) and numbers with |x| >= 2^1023; with efp fragments present only the 'qm' part is compared (fix_com/fix_orientation/fix_symmetry forced as from_input_arrays does)",
-    "theorem (a) is about records whose atoms are re-derived from the written token alone (default isotopes: no text format carries masses or mass numbers) and whose printed coordinates pass the 0.1 closeness screen in the text's unit (known finding C07-tooclose-in-text-units otherwise)",
+    "theorem (a) is about records whose atoms are format-carried - default isotope of a shipped element (A = to_A(Z), mass = float(to_mass(Z))), grammar-conformant lower-case user label (empty, '_'+word characters, or digits) - and whose printed coordinates pass the 0.1 closeness screen in the text's unit (known finding C07-tooclose-in-text-units otherwise); isotope-substituted atoms are proved NOT to be carried (written_token_answer_is_default, deuterium_not_carried)",
+    "the headline hash theorem is for psi4 text in Bohr of a molecule stored in Bohr, >= 10 printed decimals away from 8-decimal rounding boundaries; Angstrom texts need the Angstrom->Bohr product (one more float operation) and 8-9 decimals the exact margin - both oracle-checked only",
 ]
 RULE = (
     "A: validated molecules of 1-12 atoms (whole periodic table weighted to H-Ar, ghosts, user labels '_word'/'digits', 1-4 contiguous "
@@ -120,7 +150,9 @@ RULE = (
     "writeMol then readMol). S: 11 fixed single-blank texts with non-default charge/multiplicity (charged, open-shell, 2-3 fragments with "
     "distinct charges, ghost fragment, efp lines) x 15 separator spellings (blank(s), tab(s), comma, comma+blanks, mixtures, doubled commas) applied "
     "uniformly, with and without a trailing run where the grammar has one, plus random per-gap mixtures; stream B additionally varies the "
-    "separator after the multiplicity on the xyz+ title line. The fixed keyword and separator texts go to the model drivers first."
+    "separator after the multiplicity on the xyz+ title line. The fixed keyword and separator texts go to the model drivers first. "
+    "T (token sweep): one-atom validated molecules for EVERY element Z = 1..117 of the shipped table x written-token shapes (real | ghost x label '' | '_'+word "
+    "characters | digits; quick 2, thorough 6 of 10 shapes per element, rotating with element and seed) through the stream-A round-trip oracle (psi4, and xyz+ for label-free atoms) and the RW lines."
 )
 LEVEL_TEXT = (
     "proof, partial: the M2 theorems (tokenisation, number/nucleus recognisers accept and decode what the writers print, "
@@ -131,11 +163,15 @@ LEVEL_TEXT = (
     "reconciliation (C06 model over the regenerated periodic table), charge/multiplicity completion (C05 model) and fragments - is now one executable Lean function "
     "(readMol) tied to the implementation by correspondence on every generated text (validated record compared field by field, error classes, Molecule.from_data fields); "
     "proved for all records: reading the written text = validating exactly the carried fields; a validated record (fixed point of from_arrays) written as psi4 (one or several fragments) "
-    "comes back unchanged except for the printed coordinates and the text's unit - PARTIAL in one hypothesis (each written nucleus token alone re-derives the atom; checked by the "
-    "correspondence, proved only on examples) and conditional on the printed coordinates passing the closeness screen in the text's unit (false in the known-finding class); xyz+ likewise with "
-    "one more C05 hypothesis; equal 8-decimal float_prep images of the coordinates give equal C11 canonical fields and hash (sufficient printed precision proved for >= 10 decimals, "
-    "8-9 decimals oracle-checked); the composed reader's error type has only the three documented classes plus explicit out-of-scope/model-gap declarations (a property of the model - "
-    "totality of from_string itself remains oracle-checked on generated texts)."
+    "comes back unchanged except for the printed coordinates and the text's unit - the label step is now PROVED: C06's backtracking NUCLEUS matcher decodes every token the writers print "
+    "(all 1-3 letter symbols, all grammar-conformant labels, real/'@'/'Gh(' shapes) and, for every element of the regenerated periodic table, the token alone is answered by the reconciler "
+    "with the atom itself whenever the atom is format-carried (default isotope, conforming lower-case label); conversely only default isotopes can be answered, so isotope-substituted atoms "
+    "are provably not carried by any of the formats; xyz+ likewise including its C05 step (totals given, fragment values absent). The (a) theorems stay conditional on what is a parameter or a known finding: "
+    "float()/int() of the printed numbers give the record's integers and the coordinates g, and g passes the closeness screen in the text's unit (false in the known-finding class). "
+    "HEADLINE (text_roundtrip_same_hash): psi4 text in Bohr with >= 10 decimals read back is a molecule with the same C11 hash - all hypotheses explicit; "
+    "equal 8-decimal float_prep images of the coordinates give equal C11 canonical fields and hash (sufficient printed precision proved for >= 10 decimals, "
+    "8-9 decimals and Angstrom texts oracle-checked); the composed reader's error type has only the three documented classes plus explicit out-of-scope/model-gap declarations (a property of the model - "
+    "totality of from_string itself remains oracle-checked on generated texts). Still PARTIAL: M1/readMol = from_string and toTextRec = to_string's view of the record are differential ties."
 )
 TECHNIQUE = "Lean 4 proofs about a token/line-level model of writers and reader and about its composition with the from_arrays/C06/C05 models + differential correspondence of the line-filter model against from_string(return_processed=True) and of the composed model against from_string()['qm'] / Molecule.from_data + Python oracle"
 
@@ -1313,6 +1349,7 @@ def _run(ctx: Ctx, out: Outcome):
                     out.sample({"stream": "A", "fmt": fmt, "units": u, "prec": prec, "text": t})
         if rng.random() < 0.35:
             file_roundtrip(ctx, out, spec, rng.choice([".xyz", ".psi4", ".psimol"]))
+    token_sweep(ctx, out)
     # B
     for (t, fmt, rds) in valid:
         for _ in range(ctx.scale(2, 3)):
@@ -1377,6 +1414,35 @@ def keyword_stream(ctx, out: Outcome):
         for dt in ("xyz", "xyz+", "psi4"):
             total_case(ctx, out, t, dt, "kw")
             out.count("C:keyword_texts")
+
+
+# written-token shapes the label theorems (Props/C07Label.lean) distinguish: real / ghost  x  label '' | '_'+word characters | digits
+_SWEEP_SHAPES = [(True, ""), (False, ""), (True, "_a1"), (False, "_frag_2"), (True, "205"), (False, "7"), (True, "__"), (False, "_0x"),
+                 (False, "_q9"), (True, "0")]
+
+
+def token_sweep(ctx, out: Outcome):
+    """stream T: one-atom validated molecules - EVERY element of the shipped table (default isotope) x written-token shapes -
+    through the ordinary round-trip oracle and the RW / R model lines (psi4; xyz+ as well when the atom has no label).  This
+    is the table-wide instance of `written_token_reconciles` on the implementation: quick = 2, thorough = 6 of the 10 shapes per element (rotating with the element
+    and the seed, so every shape meets many elements)."""
+    rng = ctx.rng
+    k = ctx.scale(2, 6)
+    shift = rng.randrange(len(_SWEEP_SHAPES))
+    qcel = _qcel()
+    for zi, e in enumerate(gen_spec.els):
+        z = int(qcel.periodictable.to_Z(e))
+        for j in range(k):
+            real, lbl = _SWEEP_SHAPES[(zi * k + j + shift) % len(_SWEEP_SHAPES)]
+            spec = {
+                "elem": [e], "real": [real], "elbl": [lbl], "geom": ["1.25", "-0.5", "2.0"], "units": "Bohr", "seps": [],
+                "fc": [0], "fm": [(z % 2) + 1 if real else 1], "fix_com": bool((zi + j) % 2), "fix_orientation": False,
+                "name": None, "iso": None, "canon": False,
+            }
+            out.count("T:token_sweep")
+            roundtrip_case(ctx, out, spec, "psi4", rng.choice(["Bohr", "Angstrom"]), rng.randint(8, 14))
+            if not lbl:
+                roundtrip_case(ctx, out, spec, "xyz+", rng.choice(["Bohr", "Angstrom"]), rng.randint(8, 14))
 
 
 def close_pair_stream(ctx, out: Outcome):
